@@ -51,15 +51,16 @@ UNIT = {
         sfn('push', ensures=[('pushes', 'final(self).contexts@ == old(self).contexts@.push(ctx)')]),
         sfn('pop', ret='r', ensures=[('pops', 'old(self).contexts@.len() > 0 ==> final(self).contexts@ == old(self).contexts@.drop_last()'),
                                      ('empty', 'old(self).contexts@.len() == 0 ==> final(self).contexts@ == old(self).contexts@')]),
-        sfn('set_entry', ensures=[('only_top_changes', 'final(self).contexts@.len() == old(self).contexts@.len() && forall |i: int| 0 <= i < old(self).contexts@.len() - 1 ==> final(self).contexts@[i] == old(self).contexts@[i]')]),
+        sfn('set_entry', ensures=[('only_top_changes', 'final(self).contexts@.len() == old(self).contexts@.len() && forall |i: int| 0 <= i < old(self).contexts@.len() - 1 ==> final(self).contexts@[i] == old(self).contexts@[i]'),
+                                  ('the_top_context_gets_the_entry', 'old(self).contexts@.len() > 0 ==> final(self).contexts@.last().0@ == old(self).contexts@.last().0@.insert(*name, value)', ['C13', 'C01'])]),
         {'kind': 'fn', 'src': X, 'path': 'impl FeelContext::fn contains_entry', 'key': 'purity::FeelContext::contains_entry',
-         'props': P, 'auto_props': A, 'loops': 0, 'body_prefix': PRE},
+         'props': P, 'auto_props': A, 'loops': 0, 'body_prefix': PRE, 'ret': 'r', 'ensures': [('post', 'r == self.0@.contains_key(*name)')]},
         # part of the context API that the bodies under contract do not use today; kept so that a changed body that does still extracts
         {'kind': 'fn', 'src': X, 'path': 'impl FeelContext::fn len', 'key': 'purity::FeelContext::len', 'props': P, 'auto_props': A, 'loops': 0, 'ret': 'r', 'body_prefix': PRE,
          'ensures': [('number_of_entries', 'r == self.0@.len()')]},
         {'kind': 'fn', 'src': X, 'path': 'impl FeelContext::fn is_empty', 'key': 'purity::FeelContext::is_empty', 'props': P, 'auto_props': A, 'loops': 0, 'ret': 'r', 'body_prefix': PRE,
          'ensures': [('no_entries', 'r == (self.0@.len() == 0)')]},
-        {'kind': 'fn', 'src': V, 'path': 'impl Values::fn new', 'key': 'purity::Values::new', 'props': P, 'auto_props': A, 'loops': 0},
+        {'kind': 'fn', 'src': V, 'path': 'impl Values::fn new', 'key': 'purity::Values::new', 'props': P, 'auto_props': A, 'loops': 0, 'ret': 'r', 'ensures': [('holds_the_items', 'r.0 == values')]},
         {'kind': 'fn', 'src': V, 'path': 'impl Values::fn as_vec', 'key': 'purity::Values::as_vec', 'props': P, 'auto_props': A, 'loops': 0, 'ret': 'r',
          'ensures': [('view', 'r@ == self.0@')]},
         {'kind': 'fn', 'src': B, 'path': 'fn eval_function_positional', 'key': 'purity::eval_function_positional', 'props': PE, 'auto_props': AE, 'loops': 1, 'ret': 'r',
@@ -95,34 +96,103 @@ UNIT = {
                       ('RX', 'R11', r'usize::try_from\(index\.abs\(\)\)', 'usize_try_from_number(index.abs())', 1),
                       ('RX', 'R11', r'Values::default\(\)', 'Values::new(vec![])', 1),
                       ('RX', 'R2v', r'for value in values\.as_vec\(\) \{', 'for value in values.as_vec().iter() {', 1)],
-         'ensures': [('caller_scope_untouched', STACK_SAME)],
-         'loop_specs': {0: {'invariant': [('balanced_per_item', 'scope.contexts@ =~= old(scope).contexts@')]}}},
+         'splices': [{'id': 'ghost_frames', 'op': 'before', 'anchor': 'for value in', 'text': 'let ghost mut fr: Seq<Seq<FeelContext>> = Seq::empty();'},
+                     {'id': 'frames_of_item', 'op': 'before', 'anchor': ' = rhe', 'nth': 0, 'text':
+                      'let ghost frames = scope.contexts@.subrange(old(scope).contexts@.len() as int, scope.contexts@.len() as int);\n'
+                      'proof { assert(item_frames_ok(*value, name_item, frames)); assert(scope.contexts@ =~= old(scope).contexts@ + frames); fr = fr.push(frames); }'}],
+         'ensures': [('caller_scope_untouched', STACK_SAME),
+                     ('the_value_the_filter_denotes', 'filter_denotes(lhv, *rhe, old(scope).contexts@, name_item, r)', ['C01'])],
+         'loop_specs': {0: {'iter_name': 'itv',
+                            'invariant': [('balanced_per_item', 'scope.contexts@ =~= old(scope).contexts@'),
+                                          ('seq', 'itv.seq() =~= values.0@.map_values(|v: Value| &v)'),
+                                          ('kept_so_far', 'filter_run(values.0@, name_item, fr, itv.index@ as int) && filtered_values@ =~= kept(values.0@, *rhe, old(scope).contexts@, fr, itv.index@ as int)', ['C01'])],
+                            'body_prefix': PRE + '\nproof { assert(*value == values.0@[itv.index@ as int]); }\nlet ghost fr0 = fr;',
+                            'body_suffix': 'proof { lemma_kept_prefix(values.0@, *rhe, old(scope).contexts@, fr0, fr, itv.index@ as int); assert(fr.len() == itv.index@ + 1 && fr[itv.index@ as int] == fr.last()); '
+                                           'assert(filter_run(values.0@, name_item, fr, itv.index@ + 1)); }'}}},
+        {'kind': 'closure', 'src': B, 'path': 'fn build_if', 'key': 'purity::build_if', 'name': 'if_then_else', 'props': ['C01', 'C13'], 'auto_props': AE, 'loops': 0, 'ret': 'r',
+         'closure_header': r'Ok\(Box::new\(move \|scope: &Scope\| (?P<head>match lhe\(scope\) \{)',
+         'signature': 'pub fn if_then_else(scope: &mut Scope, lhe: &Evaluator, mhe: &Evaluator, rhe: &Evaluator) -> Value',
+         'rewrites': [('R3',), ('RX', 'R8e', r'\b(lhe|mhe|rhe)\(scope\)', r'\1.call(scope)', 3)],
+         'ensures': [('caller_scope_untouched', STACK_SAME),
+                     ('a_condition_that_is_not_true_takes_the_else_branch', 'match ev_value(*lhe, old(scope).contexts@) { Value::Boolean(true) => r == ev_value(*mhe, old(scope).contexts@), '
+                      'Value::Boolean(false) => r == ev_value(*rhe, old(scope).contexts@), Value::Null(_) => r == ev_value(*rhe, old(scope).contexts@), _ => r is Null }')]},
         {'kind': 'closure', 'src': I, 'path': 'impl ForExpressionEvaluator::fn evaluate', 'key': 'purity::ForExpressionEvaluator::evaluate#iteration',
          'name': 'for_iteration', 'props': PE, 'auto_props': AE, 'loops': 0,
          'closure_header': r'self\.feel_iterator\.run\(\|ctx\| \{',
          'signature': 'pub fn for_iteration(scope: &mut Scope, evaluator: &Evaluator, name_partial: &Name, results: &mut Vec<Value>, ctx: &FeelContext)',
          'rewrites': [('RX', 'R8e', r'\bevaluator\(scope\)', 'evaluator.call(scope)', None), ('RX', 'R4c', r'&self\.name_partial', 'name_partial', 1)],
-         'ensures': [('caller_scope_untouched', STACK_SAME)]},
+         'body_prefix': PRE,
+         'splices': [{'id': 'round_context', 'op': 'before', 'anchor': 'scope.push(iteration_context.clone());',
+                      'text': 'proof {\n  let l = iteration_context.0@[*name_partial]->List_0.0@;\n  assert(l.len() == results@.len());\n  assert forall |i: int| 0 <= i < l.len() implies l[i] == results@[i] by { }\n'
+                              '  assert(with_partial(iteration_context, *ctx, *name_partial, results@));\n}'}],
+         'ensures': [('caller_scope_untouched', STACK_SAME),
+                     ('appends_the_body_value_over_the_bound_variables_and_partial', 'exists |c: FeelContext| #[trigger] with_partial(c, *ctx, *name_partial, old(results)@) '
+                      '&& final(results)@ == old(results)@.push(ev_value(*evaluator, old(scope).contexts@.push(c)))', ['C01'])]},
         {'kind': 'closure', 'src': I, 'path': 'impl SomeExpressionEvaluator::fn evaluate', 'key': 'purity::SomeExpressionEvaluator::evaluate#iteration',
          'name': 'some_iteration', 'props': PE, 'auto_props': AE, 'loops': 0,
          'closure_header': r'self\.feel_iterator\.run\(\|ctx\| \{',
          'signature': 'pub fn some_iteration(scope: &mut Scope, evaluator: &Evaluator, result: &mut bool, ctx: &FeelContext)',
-         'rewrites': [('RX', 'R8e', r'\bevaluator\(scope\)', 'evaluator.call(scope)', None), ('RX', 'R4c', r'result = result \|\| value;', '*result = *result || value;', 1)],
-         'ensures': [('caller_scope_untouched', STACK_SAME)]},
+         'rewrites': [('RX', 'R8e', r'\bevaluator\(scope\)', 'evaluator.call(scope)', None), ('RX', 'R4c', r'\bresult\b(?!:)', '*result', None)],
+         'ensures': [('caller_scope_untouched', STACK_SAME),
+                     ('true_once_any_round_is_true', '*final(result) == (*old(result) || ev_value(*evaluator, old(scope).contexts@.push(*ctx)) == Value::Boolean(true))', ['C01'])]},
         {'kind': 'closure', 'src': I, 'path': 'impl EveryExpressionEvaluator::fn evaluate', 'key': 'purity::EveryExpressionEvaluator::evaluate#iteration',
          'name': 'every_iteration', 'props': PE, 'auto_props': AE, 'loops': 0,
          'closure_header': r'self\.feel_iterator\.run\(\|ctx\| \{',
          'signature': 'pub fn every_iteration(scope: &mut Scope, evaluator: &Evaluator, result: &mut bool, ctx: &FeelContext)',
-         'rewrites': [('RX', 'R8e', r'\bevaluator\(scope\)', 'evaluator.call(scope)', None), ('RX', 'R4c', r'result = result && value;', '*result = *result && value;', 1)],
-         'ensures': [('caller_scope_untouched', STACK_SAME)]},
+         'rewrites': [('RX', 'R8e', r'\bevaluator\(scope\)', 'evaluator.call(scope)', None), ('RX', 'R4c', r'\bresult\b(?!:)', '*result', None)],
+         'ensures': [('caller_scope_untouched', STACK_SAME),
+                     ('false_once_any_round_is_false', '*final(result) == (*old(result) && ev_value(*evaluator, old(scope).contexts@.push(*ctx)) != Value::Boolean(false))', ['C01'])]},
         {'kind': 'closure', 'src': B, 'path': 'fn build_context', 'name': 'context_literal', 'key': 'purity::build_context', 'props': PE, 'auto_props': AE, 'loops': 1, 'ret': 'r',
          'lead_params': ['scope: &mut Scope'], 'extra_params': ['evaluators: &Vec<Evaluator>'],
          'rewrites': [('R3',), ('RX', 'R8e', r'\bevaluator\(scope\)', 'evaluator.call(scope)', None),
                       ('RX', 'R11', r'FeelContext::default\(\)', 'feel_context_default()', None),
                       ('RX', 'R2v', r'for evaluator in &evaluators \{', 'for evaluator in evaluators.iter() {', 1)],
-         'ensures': [('caller_scope_untouched', STACK_SAME)],
-         'loop_specs': {0: {'invariant': [('one_temporary_context', 'scope.contexts@.len() == old(scope).contexts@.len() + 1 && scope.contexts@.drop_last() =~= old(scope).contexts@')]}},
+         'splices': [{'id': 'ghost_trace', 'op': 'before', 'anchor': 'for evaluator in',
+                      'text': 'let ghost mut cs: Seq<FeelContext> = seq![scope.contexts@.last()];'}],
+         'ensures': [('caller_scope_untouched', STACK_SAME),
+                     ('each_entry_sees_the_entries_before_it', 'r is Context && exists |cs: Seq<FeelContext>| #[trigger] ctx_run(evaluators@, old(scope).contexts@, cs, evaluators@.len() as int) '
+                      '&& r->Context_0.0@ =~= cs[evaluators@.len() as int].0@', ['C01'])],
+         'loop_specs': {0: {'iter_name': 'ite',
+                            'invariant': [('one_temporary_context', 'scope.contexts@.len() == old(scope).contexts@.len() + 1 && scope.contexts@.drop_last() =~= old(scope).contexts@'),
+                                          ('seq', 'ite.seq() =~= evaluators@.map_values(|e: Evaluator| &e)'),
+                                          ('entries_so_far', 'ctx_run(evaluators@, old(scope).contexts@, cs, ite.index@ as int) && cs[ite.index@ as int] == scope.contexts@.last() '
+                                                             '&& evaluated_ctx.0@ =~= scope.contexts@.last().0@', ['C01'])],
+                            'body_prefix': PRE + '\nproof { assert(*evaluator == evaluators@[ite.index@ as int]); assert(scope.contexts@ =~= old(scope).contexts@.push(cs[ite.index@ as int])); }\nlet ghost cs0 = cs;',
+                            'body_suffix': 'proof { cs = cs0.push(scope.contexts@.last()); assert(ctx_run(evaluators@, old(scope).contexts@, cs, ite.index@ + 1)); }'}},
          },
+        {'kind': 'closure', 'src': B, 'path': 'fn build_list', 'name': 'list_literal', 'key': 'purity::build_list', 'props': ['C01', 'C13'], 'auto_props': AE, 'loops': 1, 'ret': 'r',
+         'lead_params': ['scope: &mut Scope'], 'extra_params': ['evaluators: &Vec<Evaluator>'],
+         'rewrites': [('RX', 'R8e', r'\bevaluator\(scope\)', 'evaluator.call(scope)', 1),
+                      ('RX', 'R2v', r'for evaluator in &evaluators \{', 'for evaluator in evaluators.iter() {', 1)],
+         'ensures': [('caller_scope_untouched', STACK_SAME),
+                     ('the_values_of_the_items_in_order', 'r is List && r->List_0.0@.len() == evaluators@.len() && forall |i: int| 0 <= i < evaluators@.len() ==> r->List_0.0@[i] == ev_value(#[trigger] evaluators@[i], old(scope).contexts@)', ['C01'])],
+         'loop_specs': {0: {'iter_name': 'ite',
+                            'invariant': [('scope_not_touched', 'scope.contexts@ == old(scope).contexts@'),
+                                          ('seq', 'ite.seq() =~= evaluators@.map_values(|e: Evaluator| &e)'),
+                                          ('values_so_far', 'values@.len() == ite.index@ && forall |i: int| 0 <= i < ite.index@ ==> values@[i] == ev_value(#[trigger] evaluators@[i], old(scope).contexts@)', ['C01'])],
+                            'body_prefix': 'proof { assert(*evaluator == evaluators@[ite.index@ as int]); }'}}},
+        {'kind': 'closure', 'src': B, 'path': 'fn build_expression_list', 'name': 'expression_list', 'key': 'purity::build_expression_list', 'props': ['C01', 'C13'], 'auto_props': AE, 'loops': 1, 'ret': 'r',
+         'lead_params': ['scope: &mut Scope'], 'extra_params': ['evaluators: &Vec<Evaluator>'],
+         'rewrites': [('RX', 'R8e', r'\bevaluator\(scope\)', 'evaluator.call(scope)', 1),
+                      ('RX', 'R2v', r'for evaluator in &evaluators \{', 'for evaluator in evaluators.iter() {', 1)],
+         'ensures': [('caller_scope_untouched', STACK_SAME),
+                     ('the_values_of_the_items_in_order', 'r is ExpressionList && r->ExpressionList_0.0@.len() == evaluators@.len() && forall |i: int| 0 <= i < evaluators@.len() ==> r->ExpressionList_0.0@[i] == ev_value(#[trigger] evaluators@[i], old(scope).contexts@)', ['C01'])],
+         'loop_specs': {0: {'iter_name': 'ite',
+                            'invariant': [('scope_not_touched', 'scope.contexts@ == old(scope).contexts@'),
+                                          ('seq', 'ite.seq() =~= evaluators@.map_values(|e: Evaluator| &e)'),
+                                          ('values_so_far', 'values@.len() == ite.index@ && forall |i: int| 0 <= i < ite.index@ ==> values@[i] == ev_value(#[trigger] evaluators@[i], old(scope).contexts@)', ['C01'])],
+                            'body_prefix': 'proof { assert(*evaluator == evaluators@[ite.index@ as int]); }'}}},
+        {'kind': 'closure', 'src': B, 'path': 'fn build_negated_list', 'name': 'negated_list', 'key': 'purity::build_negated_list', 'props': ['C01', 'C13'], 'auto_props': AE, 'loops': 1, 'ret': 'r',
+         'lead_params': ['scope: &mut Scope'], 'extra_params': ['evaluators: &Vec<Evaluator>'],
+         'rewrites': [('RX', 'R8e', r'\bevaluator\(scope\)', 'evaluator.call(scope)', 1),
+                      ('RX', 'R2v', r'for evaluator in &evaluators \{', 'for evaluator in evaluators.iter() {', 1)],
+         'ensures': [('caller_scope_untouched', STACK_SAME),
+                     ('the_values_of_the_items_in_order', 'r is NegatedCommaList && r->NegatedCommaList_0.0@.len() == evaluators@.len() && forall |i: int| 0 <= i < evaluators@.len() ==> r->NegatedCommaList_0.0@[i] == ev_value(#[trigger] evaluators@[i], old(scope).contexts@)', ['C01'])],
+         'loop_specs': {0: {'iter_name': 'ite',
+                            'invariant': [('scope_not_touched', 'scope.contexts@ == old(scope).contexts@'),
+                                          ('seq', 'ite.seq() =~= evaluators@.map_values(|e: Evaluator| &e)'),
+                                          ('values_so_far', 'values@.len() == ite.index@ && forall |i: int| 0 <= i < ite.index@ ==> values@[i] == ev_value(#[trigger] evaluators@[i], old(scope).contexts@)', ['C01'])],
+                            'body_prefix': 'proof { assert(*evaluator == evaluators@[ite.index@ as int]); }'}}},
         {'kind': 'closure', 'src': M, 'path': 'fn build_context_evaluator', 'name': 'boxed_context', 'key': 'purity::model::build_context_evaluator', 'props': P, 'auto_props': A, 'loops': 1, 'ret': 'r',
          'lead_params': ['scope: &mut Scope'], 'extra_params': ['entry_evaluators: &Vec<(Option<Name>, Evaluator)>'],
          'rewrites': [('RX', 'R8e', r'\bevaluator\(scope\)', 'evaluator.call(scope)', None),
